@@ -115,6 +115,29 @@ func check(c Case) error {
 			return vk.Errf("CreateBarcodes(%d,%d) differs from CreateBarcodesWithBannedSequences without constraints", c.Length, c.Order)
 		}
 	} else {
+		// related calls first, results discarded: the same letters banned as one sequence, as other pieces, in
+		// another order - the judged call's result must depend on its own arguments only
+		if len(c.Bans) > 0 && c.Order <= 7 {
+			joined := strings.Join(c.Bans, "")
+			var variants [][]string
+			if len(joined) >= 4 {
+				variants = append(variants, []string{joined[:2], joined[2:]}, []string{joined[:len(joined)/2], joined[len(joined)/2:]})
+			}
+			if len(c.Bans) >= 2 {
+				rev := append([]string{}, c.Bans...)
+				for i, j := 0, len(rev)-1; i < j; i, j = i+1, j-1 {
+					rev[i], rev[j] = rev[j], rev[i]
+				}
+				variants = append(variants, rev, c.Bans[:len(c.Bans)-1])
+			}
+			variants = append(variants, []string{joined}) // last, i.e. directly before the judged call: one long ban instead of its pieces
+			for _, v := range variants {
+				func() {
+					defer func() { _ = recover() }()
+					_ = primers.CreateBarcodesWithBannedSequences(c.Length, c.Order, v, nil)
+				}()
+			}
+		}
 		got = primers.CreateBarcodesWithBannedSequences(c.Length, c.Order, c.Bans, funcs)
 	}
 	words := map[string]int{}
